@@ -8,6 +8,7 @@ import (
 	"strconv"
 	"strings"
 	"testing"
+	"time"
 
 	"github.com/theory/sqljson/path/exec"
 	"pgregory.net/rapid"
@@ -137,6 +138,33 @@ var dtEast = []string{
 	"12:34:56+05:60", "12:34:56+24", "12:34:56+16", "12:34:56+15:59", "12:34:56-15:59", "12:34:56-16:00", "2023-08-15 12:34:56-24:60", "2023-08-15T12:34:56+15:00", "2023-08-15T12:34:56+05:99", "2023-08-15T12:34:56-15",
 	"23:59:59.7+05:00", "23:59:59.4+05:00", "00:00:00+05:00", "23:59:59.7", "23:59:59.9999996", "2024-03-10T23:59:59.7", "2024-03-10T23:59:59.9999996+01:00",
 }
+
+// checkProcessZone: the zone of the process is no input of a query. (Not safe for concurrent use: it
+// assigns time.Local; the C17 tables run sequentially.)
+var checkProcessZone = register("c17.processzone", func(c DTCase) *Violation {
+	saved := time.Local
+	defer func() { time.Local = saved }()
+	var first string
+	for _, local := range []string{"UTC", "America/New_York", "Australia/Sydney"} {
+		loc, err := time.LoadLocation(local)
+		if err != nil {
+			return violf("harness: %v", err)
+		}
+		time.Local = loc
+		got, _, ok := runDT(c)
+		time.Local = saved
+		if !ok {
+			return nil
+		}
+		r := got.String()
+		if first == "" {
+			first = r
+		} else if r != first {
+			return violf("Query(%q) with a=%q zone=%q returns %s when the zone of the process is UTC and %s when it is %s: the zone of the process is not an input of the query", c.Path, c.A, c.Zone, first, r, local)
+		}
+	}
+	return nil
+})
 
 var checkStringBackCase = register("c17.stringback", func(c DTCase) *Violation { return checkStringBack(c) })
 
@@ -398,7 +426,65 @@ func TestC17(t *testing.T) {
 			}
 		}
 	}
+	// (D54) and the mirror image: instants a fraction of a second before the change, cast out of the zone with a precision
+	for _, x := range []struct{ zone, at string }{
+		{"America/New_York", "2023-11-05T05:59:59"}, {"America/New_York", "2023-03-12T06:59:59"}, {"Europe/London", "2023-03-26T00:59:59"}, {"Europe/London", "2023-10-29T00:59:59"},
+		{"Australia/Sydney", "2023-09-30T15:59:59"}, {"Australia/Sydney", "2023-04-01T15:59:59"}, {"Pacific/Auckland", "2023-09-23T13:59:59"}, {"Pacific/Apia", "2011-12-30T09:59:59"}, {"UTC", "2023-11-05T05:59:59"}, {"-03:30", "2023-11-05T05:59:59"},
+	} {
+		for _, frac := range []string{".7", ".96", ".4999996", ".5", ".9999996", ""} {
+			for _, off := range []string{"Z", "+00:00", "-04:00", "+05:30"} {
+				at := x.at
+				if off == "-04:00" || off == "+05:30" { // the same instant written with another offset
+					t, _ := time.Parse("2006-01-02T15:04:05", x.at)
+					d := map[string]time.Duration{"-04:00": -4 * time.Hour, "+05:30": 5*time.Hour + 30*time.Minute}[off]
+					at = t.Add(d).Format("2006-01-02T15:04:05")
+				}
+				for p := 0; p <= 6; p += 1 + p%2*2 {
+					a := at + frac + off
+					for _, m := range []string{"timestamp", "time", "time_tz", "timestamp_tz"} {
+						edge = append(edge, DTCase{Path: fmt.Sprintf("$a.%s(%d)", m, p), A: a, TZ: true, Zone: x.zone}, DTCase{Path: fmt.Sprintf("$a.%s(%d).string()", m, p), A: a, TZ: true, Zone: x.zone})
+					}
+					edge = append(edge, DTCase{Path: fmt.Sprintf("$a.timestamp(%d) >= $a.timestamp()", p), A: a, TZ: true, Zone: x.zone}, DTCase{Path: fmt.Sprintf("$a.timestamp_tz(%d).timestamp().string()", p), A: a, TZ: true, Zone: x.zone})
+				}
+			}
+		}
+	}
 	runTable("precision_casts_next_to_offset_changes", "c17.datetime", edge, checkDTFacts)
+	// the zone of the process (time.Local, which time.Parse attaches to a value whose offset that zone uses) is no
+	// input: the same call returns the same items under every process zone
+	t.Run("process_zone_is_no_input", func(t *testing.T) {
+		b := ev.enum(t)
+		var cs []DTCase
+		for _, a := range []string{"2023-11-05T01:59:59.7-04:00", "2023-03-12T01:59:59.7-05:00", "2023-11-05 01:59:59.96-04:00", "2023-10-01T01:59:59.7+10:00", "2023-04-02T02:59:59.7+11:00", "2023-06-01T12:00:00.5-04:00", "01:59:59.7-04:00", "2023-11-05T05:59:59.7Z", "2023-11-05 01:59:59.7", "2023-11-05"} {
+			for _, m := range []string{"timestamp_tz", "timestamp", "time_tz", "time", "datetime", "date"} {
+				for _, p := range []int{-1, 0, 1, 6} {
+					path := "$a." + m + "()"
+					if p >= 0 {
+						if m == "date" || m == "datetime" {
+							continue
+						}
+						path = fmt.Sprintf("$a.%s(%d)", m, p)
+					}
+					for _, z := range []string{"", "America/New_York", "+05:30"} {
+						cs = append(cs, DTCase{Path: path + ".string()", A: a, TZ: true, Zone: z}, DTCase{Path: path, A: a, TZ: true, Zone: z})
+					}
+				}
+			}
+		}
+		for i, c := range cs {
+			if !mine(i) {
+				continue
+			}
+			v := checkProcessZone(c)
+			key, _ := json.Marshal(c)
+			ev.Eval("local:"+string(key), true)
+			ev.Sample("process_zone", c)
+			if !b.Check("c17.processzone", c, v) {
+				return
+			}
+		}
+		ev.Exhaustive("process_zone_is_no_input", int64(len(cs)))
+	})
 	// a datetime value converts to a string that converts back to an equal value
 	var back []DTCase
 	for _, a := range append(append([]string{}, dtStrings[:45]...), dtEast...) {
